@@ -921,7 +921,8 @@ const WORDS: &[&str] = &[
 
 const SAFE: &[&str] = &[
     "alpha", "beta", "x1", "value", "long-ish", "a:b", "c#d", "http://h/p?q=1", "été", "日本", "it's", "q?", "per%cent", "at@",
-    "x*y", "a&b", "v!", "a|b", "a>b", "semi;colon", "under_score", "dot.ted", "3.14x", "w",
+    "x*y", "a&b", "v!", "a|b", "a>b", "semi;colon", "under_score", "dot.ted", "3.14x", "w", "http://h/p#frag", "#1f2e3d"
+    , "issue#42", "a:#b", "x,#y", "z]#w", "tab\there", "t\t#glued-after-tab",
 ];
 
 impl Y<'_> {
@@ -1056,8 +1057,9 @@ impl Y<'_> {
     }
     fn trailing_comment(&mut self) {
         if self.r.chance(1, 6) {
-            let pad = self.r.range(1, 3) as usize;
-            self.ind(pad);
+            // s-separate-in-line before a comment: spaces, tabs and mixes of both (#410)
+            let sep: &[u8] = *self.r.pick(&[&b" "[..], b"  ", b"   ", b"\t", b"\t\t", b" \t", b"\t ", b" \t \t", b"\t  "]);
+            self.out.extend_from_slice(sep);
             self.out.push(b'#');
             let l = self.r.usize_below(40);
             for _ in 0..l {
@@ -1426,6 +1428,87 @@ fn gen_idx(tier: Tier, r: &mut Rng, emit: &mut dyn FnMut(String)) {
             off += step;
         }
     }
+    // plain scalars meeting `#`: every separator class before the `#` (tab, several tabs/spaces mixed,
+    // none = glued to text, after `:` `,` `]`), the `#` at every offset 1..=66 from the start of the
+    // scalar scan (every lane of the first and following 16-/32-byte chunks, including lane 0 and the
+    // last lane), key / value / sequence-item / flow / document-root context, and 0, >= 32 and >= 64
+    // bytes of input remaining after the line (the vector skip engages only with >= 32 remaining)
+    let seps: &[&[u8]] = &[b"\t", b" ", b"\t\t", b" \t", b"\t ", b"  \t  ", b"", b":", b",", b"]", b"\t:", b":\t"];
+    let tails: &[usize] = if quick { &[0, 40, 80] } else { &[0, 8, 31, 32, 40, 63, 64, 80] };
+    let mut combo = 0usize;
+    for k in 1..=66usize {
+        for (si, sep) in seps.iter().enumerate() {
+            for ctx in 0..7usize {
+                for (ti, &tail) in tails.iter().enumerate() {
+                    combo += 1;
+                    // quick: one context and one tail per (k, sep), rotating; thorough: everything
+                    if quick && (ctx != (k + si) % 7 || ti != (k + 2 * si) % tails.len()) {
+                        continue;
+                    }
+                    let mut text: Vec<u8> = Vec::new();
+                    let body_len = k.saturating_sub(sep.len()).max(1);
+                    for j in 0..body_len {
+                        text.push(if j % 9 == 8 && j + 1 < body_len { b' ' } else { b'a' + (j % 7) as u8 });
+                    }
+                    text.extend_from_slice(sep);
+                    text.extend_from_slice(b"# note: x, [y] {z}");
+                    let mut b: Vec<u8> = Vec::new();
+                    match ctx {
+                        0 => {
+                            b.extend_from_slice(b"k: ");
+                            b.extend_from_slice(&text);
+                            b.extend_from_slice(b"\nz: 1\n");
+                        }
+                        1 => {
+                            // scalar in key position (comment before the colon is an error: compared too)
+                            b.extend_from_slice(&text[..body_len]);
+                            b.extend_from_slice(b": v");
+                            b.extend_from_slice(sep);
+                            b.extend_from_slice(b"# c\nz: 1\n");
+                        }
+                        2 => {
+                            b.extend_from_slice(b"- ");
+                            b.extend_from_slice(&text);
+                            b.extend_from_slice(b"\n- z\n");
+                        }
+                        3 => {
+                            b.extend_from_slice(b"k: [");
+                            b.extend_from_slice(&text);
+                            b.extend_from_slice(b"\n  , z]\n");
+                        }
+                        4 => {
+                            b.extend_from_slice(b"{k: ");
+                            b.extend_from_slice(&text);
+                            b.extend_from_slice(b"\n}\n");
+                        }
+                        5 => {
+                            b.extend_from_slice(&text);
+                            b.extend_from_slice(b"\n");
+                        }
+                        _ => {
+                            b.extend_from_slice(b"k:\n  nested: ");
+                            b.extend_from_slice(&text);
+                            b.extend_from_slice(b"\r\n  z: 1\r\n");
+                        }
+                    }
+                    if tail > 0 {
+                        match ctx {
+                            2 => b.extend_from_slice(b"- "),
+                            5 => b.extend_from_slice(b"--- "),
+                            6 => b.extend_from_slice(b"  p: "),
+                            _ => b.extend_from_slice(b"p: "),
+                        }
+                        for _ in 0..tail {
+                            b.push(b'q');
+                        }
+                        b.push(b'\n');
+                    }
+                    emit(format!("C16 idx {}", hex_bytes(&b)));
+                }
+            }
+        }
+    }
+    let _ = combo;
     let n = if quick { 2500 } else { 60_000 };
     for i in 0..n {
         let mut b = gen_yaml(r);
